@@ -56,7 +56,7 @@ static mi_heap_t HEAP;
 static uint8_t* old_start;  static size_t old_usable;  static bool old_live;     /* the block the program holds */
 static uint8_t* new_start;  static size_t new_usable;  static bool new_live;     /* the block the core hands out */
 static int n_malloc, n_free, n_free_old, n_free_new, n_bad;
-static size_t malloc_size; static bool malloc_zero; static size_t malloc_huge_align;
+static size_t core_size; static bool malloc_zero; static size_t malloc_huge_align;
 static bool core_may_succeed = true;      /* false: core always refuses (used where only the request matters) */
 /* CORE_VIRTUAL: blocks of arbitrary size, never dereferenced (address arithmetic only) */
 #if defined(HARNESS_h_aligned)
@@ -103,7 +103,7 @@ static void* core_new_block(size_t size, bool zero) {
 }
 
 void* stub_malloc_zero_ex(mi_heap_t* heap, size_t size, bool zero, size_t huge_alignment) {
-  n_malloc++; malloc_size = size; malloc_zero = zero; malloc_huge_align = huge_alignment;
+  n_malloc++; core_size = size; malloc_zero = zero; malloc_huge_align = huge_alignment;
   CHECK(heap == &HEAP, "core called with the caller's heap");
   if (huge_alignment != 0) {
     /* contract of the huge path (C03 segment lemma): block start aligned to huge_alignment; modelled for address arithmetic only */
@@ -121,7 +121,7 @@ void* stub_malloc_zero_ex(mi_heap_t* heap, size_t size, bool zero, size_t huge_a
   return core_new_block(size, zero);
 }
 static void* stub_page_malloc_x(mi_heap_t* heap, mi_page_t* page, size_t size, bool zero) {
-  n_malloc++; malloc_size = size; malloc_zero = zero; malloc_huge_align = 0;
+  n_malloc++; core_size = size; malloc_zero = zero; malloc_huge_align = 0;
   CHECK(page == &PG_SMALL && page->free != NULL, "fast path pops an existing free block");
   void* p = page->free; page->free = NULL;
   new_live = true; PG_NEW.flags.full_aligned = 0;
@@ -399,8 +399,8 @@ void h_overflow(void) {
     CHECK(r == NULL || (is_re && r == p), "core refuses in this harness (only an in-place re-allocation can succeed)");
     if (n_malloc > 0) {
       /* the request that reached the core covers count*size bytes (aligned variants may over-allocate) */
-      CHECK(malloc_size >= total || total > MI_MAX_ALLOC_SIZE, "the core is asked for at least count*size bytes");
-      if (VARIANT <= 3 || (VARIANT >= 8 && VARIANT <= 13)) CHECK(malloc_size == total, "plain counting wrappers pass exactly count*size");
+      CHECK(core_size >= total || total > MI_MAX_ALLOC_SIZE, "the core is asked for at least count*size bytes");
+      if (VARIANT <= 3 || (VARIANT >= 8 && VARIANT <= 13)) CHECK(core_size == total, "plain counting wrappers pass exactly count*size");
     } else {
       /* no allocation attempt is only allowed for in-place realloc, invalid size/alignment */
       CHECK(is_re || total > MI_MAX_ALLOC_SIZE - MI_PADDING_SIZE || VARIANT == 5 || VARIANT == 7 || VARIANT == 15 || VARIANT == 17 || alignment > MI_BLOCK_ALIGNMENT_MAX,
@@ -582,6 +582,102 @@ void h_natural(void) {
     }
   }
   WITNESS("end");
+}
+#endif
+
+#ifdef HARNESS_h_override
+/* C19: the platform entry points defined by the override (alloc-override.c, compiled with -DMI_MALLOC_OVERRIDE) are
+   served by the mimalloc core: each call reaches the mock core / free / usable-size exactly as its mi_ counterpart.
+   A missing override shows up as a call without body.  GROUP selects a family. */
+#include <stdlib.h>
+#include <malloc.h>
+static bool abort_allowed;
+void abort(void) { CHECK(abort_allowed, "C19: only the throwing forms of operator new may abort on failure (plain C build)"); ASSUME(false); }
+typedef struct mi_nothrow_s2 { int _tag; } nt_t;
+void* _Znwm(size_t n); void* _Znam(size_t n); void* _ZnwmRKSt9nothrow_t(size_t n, mi_nothrow_t tag); void* _ZnamRKSt9nothrow_t(size_t n, mi_nothrow_t tag);
+void* _ZnwmSt11align_val_t(size_t n, size_t al); void* _ZnamSt11align_val_t(size_t n, size_t al);
+void* _ZnwmSt11align_val_tRKSt9nothrow_t(size_t n, size_t al, mi_nothrow_t tag); void* _ZnamSt11align_val_tRKSt9nothrow_t(size_t n, size_t al, mi_nothrow_t tag);
+void _ZdlPv(void* p); void _ZdaPv(void* p); void _ZdlPvm(void* p, size_t n); void _ZdaPvm(void* p, size_t n);
+void _ZdlPvSt11align_val_t(void* p, size_t al); void _ZdaPvSt11align_val_t(void* p, size_t al); void _ZdlPvmSt11align_val_t(void* p, size_t n, size_t al); void _ZdaPvmSt11align_val_t(void* p, size_t n, size_t al);
+void _ZdlPvRKSt9nothrow_t(void* p, mi_nothrow_t tag); void _ZdaPvRKSt9nothrow_t(void* p, mi_nothrow_t tag);
+void* __libc_malloc(size_t); void* __libc_calloc(size_t, size_t); void* __libc_realloc(void*, size_t); void __libc_free(void*); void __libc_cfree(void*);
+void* __libc_valloc(size_t); void* __libc_pvalloc(size_t); void* __libc_memalign(size_t, size_t); int __posix_memalign(void**, size_t, size_t);
+void* reallocf(void*, size_t); size_t malloc_size(const void*); void vfree(void*); size_t malloc_good_size(size_t); void cfree(void*);
+void* _aligned_malloc(size_t, size_t); int reallocarr(void*, size_t, size_t);
+#ifndef GROUP
+#define GROUP 0
+#endif
+static void served_alloc(void* r, size_t size, bool zero, const char* dummy) {
+  CHECK(n_malloc == 1 && core_size == size && malloc_zero == zero, "C19: the request reaches the mimalloc core once with the requested size");
+  CHECK(r == NULL || (in_new(r) && new_live), "C19: the block comes from the mimalloc core");
+}
+void h_override(void) {
+  mock_init();
+  size_t n = nd_size(); ASSUME(n <= 40);
+  static int tag_obj; mi_nothrow_t tag = (mi_nothrow_t)&tag_obj;
+  size_t req0; int sel = nd_u8() % 12;
+#if GROUP == 0      /* allocation */
+  void* r = NULL; bool z = false;
+  switch (sel) {
+    case 0: r = malloc(n); break;
+    case 1: { size_t c = nd_size(), s2 = nd_size(); ASSUME(c <= 40 && s2 <= 40 && c * s2 == n); r = calloc(c, s2); z = true; break; }
+    case 2: r = __libc_malloc(n); break;
+    case 3: { size_t c = nd_size(), s2 = nd_size(); ASSUME(c <= 40 && s2 <= 40 && c * s2 == n); r = __libc_calloc(c, s2); z = true; break; }
+    case 4: r = _ZnwmRKSt9nothrow_t(n, tag); break;
+    case 5: r = _ZnamRKSt9nothrow_t(n, tag); break;
+    case 6: abort_allowed = true; r = _Znwm(n); CHECK(r != NULL, "C19: throwing operator new never returns NULL"); break;
+    case 7: abort_allowed = true; r = _Znam(n); CHECK(r != NULL, "C19: throwing operator new[] never returns NULL"); break;
+    case 8: r = realloc(NULL, n); break;
+    case 9: r = __libc_realloc(NULL, n); break;
+    case 10: r = reallocf(NULL, n); break;
+    default: r = reallocarray(NULL, 1, n); break;
+  }
+  served_alloc(r, n, z, "");
+  CHECK(n_free == 0, "allocation entry points free nothing");
+  if (r != NULL) WITNESS("served"); else WITNESS("refused");
+#elif GROUP == 1    /* release / resize / query of a block obtained from any entry point */
+  uint8_t* p = make_old(&req0, false);
+  switch (sel) {
+    case 0: free(p); break;            case 1: cfree(p); break;        case 2: vfree(p); break;
+    case 3: __libc_free(p); break;     case 4: __libc_cfree(p); break; case 5: _ZdlPv(p); break;
+    case 6: _ZdaPv(p); break;          case 7: _ZdlPvm(p, req0); break; case 8: _ZdaPvm(p, req0); break;
+    case 9: _ZdlPvRKSt9nothrow_t(p, tag); break; case 10: _ZdaPvRKSt9nothrow_t(p, tag); break;
+    default: _ZdlPvSt11align_val_t(p, 8); break;
+  }
+  CHECK(n_free == 1 && n_free_old == 1 && !old_live && n_malloc == 0, "C19: every release entry point frees the block through mimalloc exactly once");
+  WITNESS("freed");
+#elif GROUP == 2    /* usable size / resize */
+  uint8_t* p = make_old(&req0, false);
+  size_t us = old_usable;
+  switch (sel % 6) {
+    case 0: CHECK(malloc_usable_size(p) == us, "C19: malloc_usable_size is mimalloc's usable size"); break;
+    case 1: CHECK(malloc_size(p) == us, "C19: malloc_size is mimalloc's usable size"); break;
+    case 2: CHECK(malloc_good_size(n) == mi_good_size(n), "C19: malloc_good_size"); break;
+    case 3: { void* r = realloc(p, n); CHECK(r == NULL || r == p || (in_new(r) && !old_live), "C19: realloc resizes through mimalloc"); break; }
+    case 4: { void* r = reallocarray(p, 1, n); CHECK(r == NULL || r == p || (in_new(r) && !old_live), "C19: reallocarray resizes through mimalloc"); if (r == NULL) CHECK(errno == ENOMEM, "reallocarray errno"); break; }
+    default: { void* slot = p; int rc = reallocarr(&slot, 1, n); CHECK(rc == 0 ? (slot == p || in_new(slot)) : slot == p, "C19: reallocarr through mimalloc"); break; }
+  }
+  WITNESS("end");
+#else               /* aligned allocation */
+  size_t al = (size_t)1 << (nd_u8() & 7); ASSUME(al >= 8 && al <= 32);
+  void* r = NULL; void* out = NULL; int rc = 0; bool isposix = false;
+  switch (sel) {
+    case 0: rc = posix_memalign(&out, al, n); r = out; isposix = true; break;
+    case 1: rc = __posix_memalign(&out, al, n); r = out; isposix = true; break;
+    case 2: r = aligned_alloc(al, n); break;
+    case 3: r = memalign(al, n); break;
+    case 4: r = __libc_memalign(al, n); break;
+    case 5: r = _aligned_malloc(al, n); break;
+    case 6: r = _ZnwmSt11align_val_tRKSt9nothrow_t(n, al, tag); break;
+    case 7: r = _ZnamSt11align_val_tRKSt9nothrow_t(n, al, tag); break;
+    case 8: abort_allowed = true; r = _ZnwmSt11align_val_t(n, al); CHECK(r != NULL, "throwing aligned new never returns NULL"); break;
+    case 9: abort_allowed = true; r = _ZnamSt11align_val_t(n, al); CHECK(r != NULL, "throwing aligned new[] never returns NULL"); break;
+    default: r = mi_malloc_aligned(n, al); break;
+  }
+  if (r != NULL) { CHECK(in_new(r) && new_live, "C19: aligned block comes from the mimalloc core"); CHECK(((uintptr_t)r % al) == 0, "aligned as requested"); WITNESS("served"); }
+  if (isposix) CHECK(rc == 0 || rc == ENOMEM, "posix_memalign return codes");
+  CHECK(n_free == 0 || !new_live, "nothing else released");
+#endif
 }
 #endif
 
